@@ -97,9 +97,13 @@ func planFor(prop, tier string) plan {
 			p.variants = []string{"open"}
 			p.steps = 4500
 		}
-	case "C01", "C13":
+	case "C01":
 		if tier == "quick" {
 			p.steps = 3500
+		}
+	case "C13":
+		if tier == "quick" {
+			p.steps = 5000
 		}
 	case "C11":
 		if tier == "quick" {
